@@ -18,13 +18,24 @@ import (
 // draws (seeded) random large multi-signature accounts and, for each, signature sequences around the threshold:
 // a minimal authorising subset, the same with one signer removed, with one signer replaced by a repetition of
 // another (both encodings), padded with foreign / own-key signatures, with a field changed after signing, and with
-// a (plain or multi-signature) gas payer - another account or the large account itself.  Every case goes through exactly the same Offer / Validate code as the
-// replayed TLC cases and is validated by the same monitor (TraceAuth.tla).
+// a (plain or multi-signature) gas payer - another account or the large account itself -, with the gasPayer member absent / dropped /
+// added / swapped after signing, and with signatures made in the other signing scheme.  Every case goes through exactly the same
+// Offer / Validate code as the replayed TLC cases and is validated by the same monitor (TraceAuth.tla).
 func init() { engine.RegisterDriver("auth-rand", randDriver) }
 
 type sg struct {
-	by, v int
-	old   bool
+	by, v    int
+	old      bool
+	sch, who string
+}
+
+// tag: the same signatures made in scheme sch in the name of account who
+func tag(xs []sg, sch, who string) []sg {
+	out := append([]sg(nil), xs...)
+	for i := range out {
+		out[i].sch, out[i].who = sch, who
+	}
+	return out
 }
 
 func seqStr(xs []int) string {
@@ -42,14 +53,31 @@ func sigsStr(xs []sg) string {
 		if x.old {
 			o = "TRUE"
 		}
-		ss[i] = fmt.Sprintf("[by |-> %d, v |-> %d, old |-> %s]", x.by, x.v, o)
+		ss[i] = fmt.Sprintf(`[by |-> %d, v |-> %d, old |-> %s, sch |-> "%s", who |-> "%s"]`, x.by, x.v, o, x.sch, x.who)
 	}
 	return "<<" + strings.Join(ss, ", ") + ">>"
 }
 
+// gcase: the general case of Auth.tla (GCase)
+func gcase(cfg []int, kind string, sigs []sg, f, gp0, gp string, pcfg []int, psigs []sg) tla.Value {
+	return tla.MustParse(fmt.Sprintf(`[cfg |-> %s, kind |-> "%s", sigs |-> %s, f |-> "%s", gp0 |-> "%s", gp |-> "%s", pcfg |-> %s, psigs |-> %s, box |-> "none", ncfg |-> <<>>, label |-> "true"]`,
+		seqStr(cfg), kind, sigsStr(sigs), f, gp0, gp, seqStr(pcfg), sigsStr(psigs)))
+}
+
+// caseValue: the three honest forms of Auth.tla (Case): pay = self / payer / own, every signature made in the scheme of its form
 func caseValue(cfg []int, kind string, sigs []sg, f, pay string, pcfg []int, psigs []sg) tla.Value {
-	return tla.MustParse(fmt.Sprintf(`[cfg |-> %s, kind |-> "%s", sigs |-> %s, f |-> "%s", pay |-> "%s", pcfg |-> %s, psigs |-> %s, box |-> "none", ncfg |-> <<>>, label |-> "true"]`,
-		seqStr(cfg), kind, sigsStr(sigs), f, pay, seqStr(pcfg), sigsStr(psigs)))
+	g0, ssch, pwho := "sender", "default", "S"
+	if pay == "payer" {
+		g0, pwho = "payer", "P"
+	}
+	if pay != "self" {
+		ssch = "reimb"
+	}
+	g := g0
+	if f == "gasPayer" {
+		g = "payer2"
+	}
+	return gcase(cfg, kind, tag(sigs, ssch, "S"), f, g0, g, pcfg, tag(psigs, "payer", pwho))
 }
 
 func randDriver(args []string) error {
@@ -237,6 +265,28 @@ func randDriver(args []string) error {
 		if len(min) > 1 {
 			do(caseValue(cfg, "transfer", min, "none", "own", cfg, min[1:]))
 		}
+		// the gasPayer member: absent (honest, default and reimbursed form); dropped / added / pointed at another account after
+		// everybody signed; the payer swapped for Q, who signs (the sender's holders re-sign, or not)
+		q := []sg{{by: 0, sch: "payer", who: "Q"}}
+		do(gcase(cfg, "transfer", tag(min, "default", "S"), "none", "absent", "absent", nil, nil))
+		do(gcase(cfg, "transfer", tag(min, "reimb", "S"), "none", "absent", "absent", nil, tag(min, "payer", "S")))
+		gps := [][2]string{{"sender", "absent"}, {"absent", "sender"}, {"absent", "payer2"}, {"sender", "payer2"}}
+		g := gps[rng.Intn(len(gps))]
+		do(gcase(cfg, "transfer", tag(o, "default", "S"), "gasPayer", g[0], g[1], nil, nil))
+		g = gps[rng.Intn(2)]
+		do(gcase(cfg, "transfer", tag(o, "reimb", "S"), "gasPayer", g[0], g[1], nil, tag(min, "payer", "S")))
+		do(gcase(cfg, "transfer", tag(o, "reimb", "S"), "gasPayer", "payer", "payer2", pc, q))
+		do(gcase(cfg, "transfer", tag(min, "reimb", "S"), "gasPayer", "payer", "payer2", pc, q))
+		do(gcase(cfg, "transfer", tag(min, "reimb", "S"), "gasPayer", "payer", "payer2", pc, tag(ps, "payer", "P")))
+		// signatures made in the other scheme: the last signer of the minimal set (default form / reimbursed form); the sender's
+		// signatures copied into the payer list
+		x = tag(min, "default", "S")
+		x[len(x)-1].sch = "reimb"
+		do(gcase(cfg, "transfer", x, "none", "sender", "sender", nil, nil))
+		x = tag(min, "reimb", "S")
+		x[len(x)-1].sch = "default"
+		do(gcase(cfg, "transfer", x, "none", "sender", "sender", nil, tag(min, "payer", "S")))
+		do(gcase(cfg, "transfer", tag(min, "reimb", "S"), "none", "sender", "sender", nil, tag(min, "reimb", "S")))
 	}
 	return nil
 }
